@@ -188,8 +188,12 @@ def seeds(ck):
     for f in with_lists[: (6 if ck.tier == "thorough" else 2)]:
         if f not in chosen:
             chosen.append(f)
+    pf = os.path.join(FIXDIR, "layers-minimal", "pattern-fill.psd")   # a non-empty Patt block (pattern + virtual memory arrays)
+    if os.path.exists(pf) and pf not in chosen:
+        chosen.append(pf)
     for f in chosen:
         out.append((os.path.relpath(f, FIXDIR), open(f, "rb").read()))
+    out.append(("hand:patt", K.patt_doc()))
     return out
 
 
@@ -272,6 +276,22 @@ def gen_mutants(ck, name, b):
                 m = bytearray(b)
                 m[i + 4:i + 8] = v
                 yield ("count@%d" % (i + 4), bytes(m))
+    # ... and the channel count of a pattern's virtual-memory-array list (and every other field of the pattern head)
+    for code in (b"Patt", b"Pat2", b"Pat3"):
+        start = 0
+        for _hit in range(2):
+            i = b.find(b"8BIM" + code, start)
+            if i < 0:
+                break
+            start = i + 8
+            for rel in range(12, 232):
+                o = i + rel
+                if o + 4 > n:
+                    break
+                for v in (b"\xff\xff\xff\xff", b"\x00\x00\xff\xff"):
+                    m = bytearray(b)
+                    m[o:o + 4] = v
+                    yield ("count@%d" % o, bytes(m))
     # random multi-byte substitutions and splices
     for _ in range(300 if thorough else 60):
         m = bytearray(b)
@@ -372,7 +392,8 @@ def run():
                "(e) cost: container-level PSD.read (payload registries emptied, in a forked child) on hand-built and generated small documents, their truncations and "
                "max/zero/bit-flip mutants - outcome, number of fp.read calls, item-reader calls and bytes returned vs the instrumented twin of Psd/Model.read_psd, and vs the "
                "proved bounds ticks <= 2*len+1, bytes <= 6*len; (f) every payload class of the registries on a maximal / large / zero count at every offset under "
-               "RLIMIT_AS, an alarm and the read counter; (g) documents declaring maximal geometry: opened, then every decoding entry point run under the limit"
+               "RLIMIT_AS, an alarm and the read counter, and (f') every element class found inside the fixtures (nested ones included) on its valid serialisation with a maximal / large "
+               "count over every offset of its head; (g) documents declaring maximal geometry: opened, then every decoding entry point run under the limit"
                % (RLIMIT_MB, PER_INPUT_S, K.FULL_C, K.FULL_K))
     ok = ck.coq_build(["theories/Malformed/Proofs.v", "theories/Malformed/CostThms.v", "theories/Properties/C06.v"])
     if ok:
@@ -564,6 +585,29 @@ def run():
                         "<= %d * %d + %d: every loop iteration consumes data or stops" % (K.FULL_C, len(p), K.FULL_K))
         ck.nontriv(("p", qn))
     total += len(classes) * len(payloads)
+    # (f') the same on VALID serialisations of every element class found inside the fixtures, nested ones included
+    #      (Pattern, VirtualMemoryArrayList, Annotation, LinkedLayer, ...): a maximal / large count over every offset of the head
+    fx = sorted(glob.glob(os.path.join(FIXDIR, "*.ps[db]")) + glob.glob(os.path.join(FIXDIR, "*", "*.ps[db]")), key=os.path.getsize)
+    harvest = K.harvest_elements([f for f in fx if os.path.getsize(f) < 2000000], extra_docs=[K.patt_doc()])
+    ck.count("structured:classes", len(set((m, q) for m, q, _b in harvest)))
+    for (mod, qn), pls, outs in K.run_structured(harvest, thorough):
+        if isinstance(outs, str):
+            ck.fail("payload-" + ("crash" if outs.startswith("CRASH") else "worker-failed"), {"payload_class": [mod, qn], "payload": pls[0]}, outs,
+                    "an outcome for every payload (the valid instance is listed; the culprit is one of its count mutants)")
+            continue
+        for p, (r, reads, secs, mb) in zip(pls, outs):
+            cls = r.split()[0]
+            ck.count("structured:" + (r if cls == "exc" else cls))
+            worst_payload = max(worst_payload, reads - K.FULL_C * len(p))
+            if cls in ("HANG", "MEMORY", "CRASH"):
+                ck.fail("payload-" + cls.lower(), {"payload_class": [mod, qn], "payload": p}, r, "parsed or rejected within the limits, memory bounded by the payload")
+            elif secs > 2:
+                ck.fail("payload-slow", {"payload_class": [mod, qn], "payload": p}, "%.1f s" % secs, "time linear in %d bytes" % len(p))
+            elif reads > K.FULL_C * len(p) + K.FULL_K:
+                ck.fail("payload-reads-exceed-linear-bound", {"payload_class": [mod, qn], "payload": p}, "%d fp.read calls on %d bytes (%s)" % (reads, len(p), r),
+                        "<= %d * %d + %d: every loop iteration consumes data or stops" % (K.FULL_C, len(p), K.FULL_K))
+        ck.nontriv(("s", qn))
+        total += len(pls)
     stage("payload-maximiser")
     # (g) declared geometry: open (judged as every other open), then the decode entry points under the limit
     gdocs = K.geometry_docs()
@@ -619,8 +663,7 @@ def replay(path):
     elif "payload_class" in inp:
         mod, qn = inp["payload_class"]
         p = bytes.fromhex(inp["payload"]["hex"])
-        cls = [c for c in K.payload_classes() if (c[1], c[2]) == (mod, qn)]
-        print(K.run_maximiser(cls, [p], workers=1))
+        print(K.run_maximiser([("replay", mod, qn, {})], [p], workers=1))
     else:
         b = bytes.fromhex(inp["bytes"]["hex"])
         ck = Check("C06")
